@@ -84,7 +84,10 @@ theorem rmqr_new_not_too_large (level prio : Nat) (hl : level < 2) (hp : prio < 
     rw [hlv] at hlv'
     cases hlv'
   · split
-    · exact ⟨_, rfl⟩
+    · rw [if_pos (show Model.RMQR.NEW_EMPTY_USES_PRIORITY = true from rfl)]
+      obtain ⟨v, hv, _⟩ := Lemmas.NewRMQRValid.calcVersion_nil level prio hl hp
+      rw [hv]
+      exact ⟨_, rfl⟩
     · rename_i he
       have hne : data ≠ [] := by simpa using he
       have hsize : data.toArray.size ≠ 0 := size_ne_zero hne
